@@ -36,6 +36,18 @@ func multisigUC(k *chain.Keys) types.UnlockConditions {
 	return types.UnlockConditions{PublicKeys: []types.UnlockKey{k.Pub[0].UnlockKey(), k.Pub[1].UnlockKey(), k.Pub[2].UnlockKey()}, SignaturesRequired: 2}
 }
 
+// wideUC: 66 keys (64 filler keys nobody holds, then keys 0 and 2), 2 signatures required.
+func wideUC(k *chain.Keys) types.UnlockConditions {
+	uc := types.UnlockConditions{SignaturesRequired: 2}
+	for i := 0; i < 64; i++ {
+		var pk types.PublicKey
+		pk[0], pk[1] = 0x77, byte(i)
+		uc.PublicKeys = append(uc.PublicKeys, pk.UnlockKey())
+	}
+	uc.PublicKeys = append(uc.PublicKeys, k.Pub[0].UnlockKey(), k.Pub[2].UnlockKey())
+	return uc
+}
+
 func lockedUC(k *chain.Keys) types.UnlockConditions {
 	uc := k.StdUC(0)
 	uc.Timelock = 1
@@ -60,6 +72,7 @@ func alloc(k *chain.Keys) chain.GenesisAlloc {
 		}
 	}
 	add(multisigUC(k).UnlockHash(), 2)
+	add(wideUC(k).UnlockHash(), 2)
 	add(lockedUC(k).UnlockHash(), 2)
 	add(threshPolicy(k).Address(), 2)
 	add(hashPolicy().Address(), 2)
@@ -203,6 +216,15 @@ func templates(k *chain.Keys) []template {
 				return chain.Use{}, false
 			}
 			signV1With(w, &t, types.Hash256(p.ID), []int{0, 2}, []uint64{0, 2}, whole, 0)
+			return chain.Use{Name: "v1", V1: &t}, true
+		}, none},
+		{"v1 2-of-66 multisig (signers at key indices 64 and 65)", func(w *chain.World) (chain.Use, bool) {
+			uc := wideUC(k)
+			t, p, ok := v1base(w, uc.UnlockHash(), uc)
+			if !ok {
+				return chain.Use{}, false
+			}
+			signV1With(w, &t, types.Hash256(p.ID), []int{0, 2}, []uint64{64, 65}, whole, 0)
 			return chain.Use{Name: "v1", V1: &t}, true
 		}, none},
 		{"v1 2-of-3 multisig, second signature covers the first", func(w *chain.World) (chain.Use, bool) {
@@ -507,6 +529,21 @@ func probeTemplate(c *vf.Ctx, w *chain.World, tp template) {
 			a.v.Set(tmp)
 		}
 	}
+	// overwrite tamperings: every element of a list replaced by a copy of every other element of the same list (one
+	// signer signing twice instead of the co-signer, one input or output repeated, ...)
+	for i := range lvs {
+		for j := range lvs {
+			a, b := lvs[i], lvs[j]
+			if i == j || !a.elem || !b.elem || a.list != b.list || reflect.DeepEqual(a.v.Interface(), b.v.Interface()) {
+				continue
+			}
+			tmp := reflect.New(b.v.Type()).Elem()
+			tmp.Set(b.v)
+			b.v.Set(a.v)
+			check("overwrite " + b.path + " := " + a.path)
+			b.v.Set(tmp)
+		}
+	}
 	// structured substitutions
 	if u.V2 != nil {
 		t := u.V2
@@ -601,6 +638,15 @@ func probeTemplate(c *vf.Ctx, w *chain.World, tp template) {
 
 // moveUnspec: a compensating move is outside the signed set if either end is.
 func moveUnspec(tp template, label string) bool {
+	if strings.HasPrefix(label, "overwrite ") {
+		parts := strings.Split(strings.TrimPrefix(label, "overwrite "), " := ")
+		for _, suffix := range []string{"", "+1", ".Lo+1", ".Hi+1", "[byte 0]^1", "[drop last]"} {
+			if tp.unspec(parts[0] + suffix) {
+				return true
+			}
+		}
+		return false
+	}
 	if strings.HasPrefix(label, "exchange ") {
 		parts := strings.Split(strings.TrimPrefix(label, "exchange "), " <-> ")
 		// v1 signature entries are self-contained (parent, key index, covered fields, signature) and do not sign each
@@ -636,6 +682,8 @@ func wholeV1SigEntry(p string) bool {
 type leaf struct {
 	path string
 	v    reflect.Value
+	elem bool   // a whole list element
+	list string // path of the list it belongs to
 }
 
 // leaves collects every settable leaf (currency, byte array, integer, bool, byte slice) and every element of every list
@@ -647,7 +695,7 @@ func leaves(ptr any) (out []leaf) {
 		case reflect.Struct:
 			if v.Type() == reflect.TypeOf(types.Currency{}) || v.Type() == reflect.TypeOf(time.Time{}) {
 				if v.CanSet() {
-					out = append(out, leaf{path, v})
+					out = append(out, leaf{path: path, v: v})
 				}
 				return
 			}
@@ -659,14 +707,14 @@ func leaves(ptr any) (out []leaf) {
 		case reflect.Slice, reflect.Array:
 			if v.Type().Elem().Kind() == reflect.Uint8 {
 				if v.CanSet() && v.Len() > 0 {
-					out = append(out, leaf{path, v})
+					out = append(out, leaf{path: path, v: v})
 				}
 				return
 			}
 			for i := 0; i < v.Len(); i++ {
 				e := v.Index(i)
 				if e.CanSet() && (e.Kind() == reflect.Struct || e.Kind() == reflect.Interface || e.Kind() == reflect.Pointer) && e.Type() != reflect.TypeOf(types.Currency{}) {
-					out = append(out, leaf{fmt.Sprintf("%s[%d]", path, i), e}) // whole list element
+					out = append(out, leaf{fmt.Sprintf("%s[%d]", path, i), e, true, path}) // whole list element
 				}
 				walk(e, fmt.Sprintf("%s[%d]", path, i))
 			}
@@ -676,7 +724,7 @@ func leaves(ptr any) (out []leaf) {
 			}
 		case reflect.Uint64, reflect.Uint8, reflect.Int, reflect.Bool, reflect.String:
 			if v.CanSet() {
-				out = append(out, leaf{path, v})
+				out = append(out, leaf{path: path, v: v})
 			}
 		}
 	}
